@@ -11,6 +11,8 @@ N1 == [rest |-> FALSE, items |-> <<Obj(<<"C">>, 4)>>]
 CH == [rest |-> FALSE, items |-> <<Obj(<<"C">>, 4), Obj(<<"E">>, 4), Obj(<<"G">>, 4)>>]
 HI == [rest |-> FALSE, items |-> <<Obj(<<"C">>, 9)>>]
 LO == [rest |-> FALSE, items |-> <<Obj(<<"E">>, 4), Obj(<<"C">>, 2)>>]
+\* a chord whose out-of-range note is neither its first nor its last item
+MID == [rest |-> FALSE, items |-> <<Obj(<<"C">>, 4), Obj(<<"C">>, 9), Obj(<<"E">>, 4), Obj(<<"G">>, 4)>>]
 RS == [rest |-> TRUE, items |-> <<>>]
 It(root, sh, depth) == [rest |-> FALSE, root |-> root, sh |-> sh, depth |-> depth]
 ItR(depth) == [rest |-> TRUE, root |-> <<"C">>, sh |-> "", depth |-> depth]
@@ -22,6 +24,7 @@ ChordLists == {<<It(<<"C">>, "", 0), It(<<"A">>, "m", 0), ItR(0), It(<<"G">>, "7
 Acts ==
   {[op |-> "add_notes", arg |-> a, v |-> v, dflt |-> FALSE] : a \in {N1, CH, RS, HI, LO}, v \in Vals} \cup
   {[op |-> "add_notes", arg |-> a, v |-> [b |-> 4, d |-> 0, r |-> <<1,1>>], dflt |-> TRUE] : a \in {N1, RS}} \cup
+  {[op |-> "add_notes", arg |-> MID, v |-> [b |-> 4, d |-> 0, r |-> <<1,1>>], dflt |-> FALSE]} \cup
   {[op |-> "plus", arg |-> a] : a \in {N1, CH}} \cup
   {[op |-> "add_bar", key |-> k, meter |-> m, filled |-> f] : k \in {<<"G">>, <<"e","b">>}, m \in {<<3,4>>, <<6,8>>}, f \in BOOLEAN} \cup
   {[op |-> "from_chords", items |-> c, v |-> v] : c \in ChordLists, v \in {[b |-> 2, d |-> 0, r |-> <<1,1>>], [b |-> 3, d |-> 0, r |-> <<1,1>>]}}
